@@ -10,6 +10,7 @@ at the top-level directory.
 */
 
 #include "slu_mt_cdefs.h"
+#include "slu_mt_verif.h"
 
 void
 *pcgstrf_thread(void *arg)
@@ -168,6 +169,7 @@ void
     printf("(%d) thr_arg-> pnum %d, info %d\n", pnum, thr_arg->pnum, thr_arg->info);
 #endif
 
+    SLU_VERIF_SET_SELF(pnum);
     singular   = 0;
     m          = A->nrow;
     n          = A->ncol;
@@ -202,6 +204,7 @@ void
        Main loop: repeatedly ...
        ------------------------- */
     while ( pxgstrf_shared->tasks_remain > 0 ) {
+        SLU_VERIF_EV("Loop", pnum, jcol);
         
 #ifdef PROFILE
 	TIC(t);
@@ -257,6 +260,7 @@ void
 #endif
 		}
 
+		SLU_VERIF_EV("SnRelease", pnum, jcol, w, *info);
 		/* Release the whole relaxed supernode */
 		for (jj = jcol; jj < jcol + w; ++jj) 
 		    pxgstrf_shared->spin_locks[jj] = 0;
@@ -272,10 +276,12 @@ void
 					   &bcol, lbusy);
 		
 		/* Symbolic factor on a panel of columns */
+		SLU_VERIF_EV("DfsBegin", pnum, jcol, w);
 		pcgstrf_panel_dfs
 		    (pnum, m, w, jcol, A, perm_r, xprune,ispruned,lbusy,
 		     &nseg1, panel_lsub, w_lsub_end, segrep, repfnz,
 		     marker, spa_marker, parent, xplore, dense, Glu);
+		SLU_VERIF_EVL("DfsEnd", pnum, segrep, nseg1, jcol);
 #if ( DEBUGlevel>=2 )
   if ( jcol==BADPAN )
     printf("(%d) After pcgstrf_panel_dfs(): nseg1 %d, w_lsub_end %d\n",
@@ -359,6 +365,7 @@ void
 #endif
 			}
 
+		    SLU_VERIF_EV("Pivot", pnum, jj, pivrow, *info);
 		    /* copy the U-segments to ucol[*] */
 		    if ( (*info = pcgstrf_copy_to_ucol
 			            (pnum,jj,nseg,segrep,&repfnz[k],
@@ -373,10 +380,12 @@ void
                        waiting for this column can proceed; only now, because
                        pruning with column "jj" must be complete before an
                        ancestor column can prune the same supernodes */
+		    SLU_VERIF_EV("Release", pnum, jj);
 		    pxgstrf_shared->spin_locks[jj] = 0;
 
 		    /* Reset repfnz[] for this column */
 		    pxgstrf_resetrep_col (nseg, segrep, &repfnz[k]);
+		    SLU_VERIF_EV("ColDone", pnum, jj);
 
 #if ( DEBUGlevel>=2 )
 /*  if (jj >= LOCOL && jj <= HICOL) {*/
@@ -392,6 +401,7 @@ void
 		
 	    } /* else regular panel ... */
 	    
+	    SLU_VERIF_EV("PanelDone", pnum, jcol);
 	    STATE( jcol ) = DONE; /* Release panel jcol. */
 	    
 #ifdef PROFILE
@@ -413,6 +423,7 @@ void
 	
     } /* while there are more panels */
 
+    SLU_VERIF_EV("Exit", pnum, singular);
     *info = singular;
 
     /* Free work space and compress storage */
